@@ -209,6 +209,7 @@ func runDBHistory(work string, idx int, p *dbProfile, in DBInput, r *rand.Rand, 
 			Direct: &DirectVerdict{OK: false, What: "cannot create a database: " + err.Error()}}
 	}
 	defer env.close()
+	env.probeCounters = p.Name == "C03"
 	var obs []stepObs
 	deleted := map[string][]uint32{}
 	var last []secDump
